@@ -176,6 +176,15 @@ def _build_and_run(tag, jobs, nbins=None, features=(), run_timeout=120, build_ti
         for m in re.finditer(r"src/bin/[^/\s]+/(m_\w+)\.rs:\d+:\d+: error", out):
             bad.add(m.group(1))
         if not bad:
+            # no diagnostic points at a generated program: rustc itself died (killed under memory pressure, interrupted ...);
+            # cargo resumes where it stopped, so build once more (single job) before giving up
+            rc, out2 = lib.sh(["cargo", "build", "--offline", "--bins", "--message-format=short", "-j", "4"], cwd=d, timeout=build_timeout)
+            if rc == 0:
+                break
+            out = out2
+            for m in re.finditer(r"src/bin/[^/\s]+/(m_\w+)\.rs:\d+:\d+: error", out):
+                bad.add(m.group(1))
+        if not bad:
             raise lib.Infra("generated crate does not build and no job could be blamed:\n" + out[-3000:])
         keep = []
         for j in todo:
